@@ -21,7 +21,8 @@ def check_index(unit, obj, expected, ctor):
             fail(unit, "len() = %d, logical length %d" % (len(obj), n), ctor=ctor)
     except BaseException as e:
         fail(unit, "len() raised %s" % type(e).__name__, ctor=ctor)
-    for i in range(-n - 3, n + 3):
+    # every integer: also those that do not fit a machine word (a Python sequence raises IndexError for them, not OverflowError)
+    for i in list(range(-n - 3, n + 3)) + [2 ** 63 - 1, -2 ** 63, 2 ** 63, 2 ** 70, -2 ** 70]:
         cases += 1
         try:
             got = obj[i]
@@ -129,8 +130,11 @@ def run_held_view(width, length):
     sm = lightmotif.CountMatrix(cols).normalize(0.1).log_odds()
     bad = 0
     try:
+        short = lightmotif.CountMatrix({"A": [1, 2], "C": [2, 2], "G": [3, 3], "T": [2, 1]}).normalize(0.1).log_odds()
         for rep in range(20):
             st = lightmotif.stripe(text)
+            if rep % 2 == 1:
+                short.calculate(st)          # history: the sequence already carries look-ahead rows when the view is taken
             view = memoryview(st)
             want = view.tolist()
             try:
@@ -148,6 +152,65 @@ def run_held_view(width, length):
     except BaseException as e:
         fail("py_striped_view_held", "raised %s: %s" % (type(e).__name__, e), ctor="L=%d,M=%d" % (length, width))
 
+def prod(t):
+    r = 1
+    for x in t:
+        r *= x
+    return r
+
+def run_edge_views():
+    """empty / degenerate objects must still export a (possibly empty) view - never a panic - and the byte length of every view
+    is shape x itemsize (no look-ahead rows or padding reachable through tobytes())"""
+    global cases
+    cols = {"A": [1, 2, 3], "C": [2, 2, 2], "G": [3, 3, 3], "T": [3, 2, 1]}
+    sm = lightmotif.CountMatrix(cols).normalize(0.1).log_odds()
+    objs = []
+    for text in ("", "A", "ACGTACGTAC", "ACGT" * 20):
+        objs.append(("py_striped_getbuffer", "stripe(%r)" % text, lambda text=text: lightmotif.stripe(text)))
+        objs.append(("py_scores_getbuffer", "scores(L=%d,M=3)" % len(text), lambda text=text: sm.calculate(lightmotif.stripe(text))))
+        def scored(text=text):
+            st = lightmotif.stripe(text); sm.calculate(st); return st
+        objs.append(("py_striped_getbuffer", "stripe(%r) after scoring" % text, scored))
+        objs.append(("py_encoded_getbuffer", "EncodedSequence(%r)" % text, lambda text=text: lightmotif.EncodedSequence(text)))
+    objs.append(("py_scoring_shape", "ScoringMatrix(width=3)", lambda: sm))
+    for unit, ctor, mk in objs:
+        cases += 1
+        try:
+            obj = mk()
+            mem = memoryview(obj)
+            want = prod(mem.shape) * mem.itemsize
+            if mem.nbytes != want:
+                fail(unit, "view reports %d bytes for shape %r x itemsize %d = %d" % (mem.nbytes, tuple(mem.shape), mem.itemsize, want), ctor=ctor)
+        except BaseException as e:
+            fail(unit, "memoryview raised %s: %s" % (type(e).__name__, str(e)[:80]), ctor=ctor)
+
+def run_protein_views():
+    """protein matrices: 21 columns in rows of 24 floats - element [i][j] of the view must be entry (i, j)"""
+    global cases
+    letters = "ACDEFGHIKLMNPQRSTVWY"
+    for width in (1, 2, 3, 7):
+        cols = {ch: [float((k * 7 + i * 3) % 11) + 0.25 for i in range(width)] for k, ch in enumerate(letters)}
+        try:
+            sm = lightmotif.ScoringMatrix(cols, protein=True)
+            mem = memoryview(sm)
+            cases += 1
+            if tuple(mem.shape) != (width, 21):
+                fail("py_scoring_shape", "protein view shape %r, logical shape %r" % (tuple(mem.shape), (width, 21)), ctor="protein width=%d" % width)
+                continue
+            for i in range(width):
+                row = list(sm[i])
+                for j in range(21):
+                    a, b = mem[i, j], row[j]
+                    if not (a == b or (a != a and b != b)):
+                        fail("py_scoring_shape", "protein view[%d,%d]=%r != entry %r" % (i, j, a, b), ctor="protein width=%d" % width)
+                        break
+                for k, ch in enumerate(letters):
+                    if cols[ch][i] not in row:
+                        fail("py_scoring_getitem", "row %d of a protein matrix does not hold the value given for %s" % (i, ch), ctor="protein width=%d" % width)
+                        break
+        except BaseException as e:
+            fail("py_scoring_shape", "protein matrix: raised %s: %s" % (type(e).__name__, str(e)[:80]), ctor="protein width=%d" % width)
+
 def nrows_seq(st, text):
     return (len(text) + 31) // 32
 
@@ -157,6 +220,8 @@ if MODE in ("sweep", "search"):
         run(w)
     for (w, l) in ((3, 100), (40, 100), (70, 700)):
         run_held_view(w, l)
+    run_edge_views()
+    run_protein_views()
     want = ARG if MODE == "search" and ARG not in ("", "C18") else None
     shown = set()
     for f in fails:
@@ -177,6 +242,8 @@ elif MODE == "replay":
         run(w)
     for (w, l) in ((3, 100), (40, 100), (70, 700)):
         run_held_view(w, l)
+    run_edge_views()
+    run_protein_views()
     still = [f for f in fails if f["unit"] == unit]
     if still:
         print("replay: STILL FAILS: " + still[0]["what"])
